@@ -13,7 +13,8 @@ TIMEOUT = {"quick": 900, "thorough": 3000}
 MIN_EVALUATIONS = {"quick": 15000, "thorough": 15000}  # fewer oracle evaluations than this means the workload collapsed: inconclusive
 RULE = ("random controller projects (user tags of every kind, 0-3 programs with routines and tags, tasks, Map:/Cxn:, double-underscore and "
         "system-bit symbols, module I/O tags, aliases, UDTs nested <=3 with packed BOOLs on hidden hosts, arrays of structs, string types "
-        "of capacity 1..4100, template ids inside and outside 0x100-0xEFF) are uploaded through open() / get_tag_list(None | '*' | program) "
+        "of capacity 1..4100, template ids inside and outside 0x100-0xEFF incl. both ends of either range, predefined types with a hidden CTL / Control status word "
+        "aliased by visible BOOL members and the bare-name template form) are uploaded through open() / get_tag_list(None | '*' | program) "
         "under target-chosen symbol pagination {1,2,3,random,all} and template fragmentation {1..8,random,all}, firmware {16..32}; the "
         "uploaded tags / data_types / info are compared field by field with the project model, get_tag_info(tag | tag[i].member.member[j]...) "
         "must return the same definitions, every uploaded type class must decode "
@@ -21,8 +22,10 @@ RULE = ("random controller projects (user tags of every kind, 0-3 programs with 
         "tags_json, and json.dumps(tags_json) must work. distinct = (symbol kind | type shape, page mode, fragment mode, firmware class)")
 ASSUMPTIONS = [
     "documented keys only (docs/usage/logixdriver.rst 'Tag Structure' / 'Structure Definitions'); extra keys ignored; external_access judged for firmware >= 18 only",
-    "templates always carry a 'Name;n..' entry; CTL/Control members of predefined-range templates are not generated",
-    "visible members = names not starting with ZZZZZZZZZZ or __",
+    "templates of user-range types always carry a 'Name;n..' entry; predefined-range types (ids outside 0x100..0xEFF) of firmware >= 32 may give the bare "
+    "type name as first string instead (pycomm3 issue #186 / code comment 'predefined types put name as first member')",
+    "visible members = names not starting with ZZZZZZZZZZ or __; in predefined-range types (TIMER / COUNTER / CONTROL shape) the status word CTL / Control, "
+    "whose bits the visible BOOL members alias, is an internal host too (not user-visible in a controller); a member of that name in a user-range type is ordinary",
 ]
 ANCHORS = [
     ("pycomm3/logix_driver.py", "LogixDriver.get_tag_info"),
@@ -133,6 +136,11 @@ def check_upload(res, sc, drv, program_arg, keyp=""):
             continue
         res.ev()
         res.seen("tag", t.kind, t.dtype.kind, len(t.dims), sc.dev.page_mode, sc.dev.tmpl_frag, sc.fw >= 18, bool(t.program))
+        if t.dtype.is_struct and t.dtype.predefined:
+            sw = any(t.dtype.is_hidden(m) and m.name in ("CTL", "Control") for m in t.dtype.members)
+            res.seen("predefined-type", sw, t.dtype.bare_name, t.dtype.template_id in (0xF00, 0xF01, 0xFFF))
+            if sw:
+                res.count("tags-of-predefined-types-with-hidden-status-word")
         d = diff(expected_tag(t, sc.fw), got[name], "tag")
         if d:
             res.violation(f"{keyp}tag-field:{diff_key(d)}", f"tag {name!r} ({t.dtype.name}{list(t.dims) or ''}, {sc.label}, pages {sc.dev.page_mode}, template fragments {sc.dev.tmpl_frag}): {d}",
